@@ -35,20 +35,6 @@ def doc_corpus():
         ("static fields: defaults first, then the declared initialisers in textual order",
          "class A { public static A first = new A(); public static int count = 5; public int id; public constructor() -> A { count = count + 1; this.id = count; return this; } }\n"
          "function main() -> void { echo(A.count); A b = new A(); echo(b.id); echo(A.first.id); }", "5\n6\n1\n"),
-        ("overloads on a class and on an array of that class are two methods",
-         "class A { public constructor() -> A = default; }\nclass O { public constructor() -> O = default; public virtual function p(A a) -> void { echo(\"p(A)\"); } "
-         "public virtual function p(A[] a) -> void { echo(\"p(A[])\"); } }\nfunction main() -> void { O o = new O(); A a = new A(); o.p(a); }", "p(A)\n"),
-        ("a class extending a specialisation of a generic class: inherited members, super(...), overrides and upcasts use the type arguments",
-         "class Animal { public constructor() -> Animal = default; public virtual function say() -> string { return \"...\"; } }\n"
-         "class Dog extends Animal { public constructor() -> Dog = default; public override function say() -> string { return \"woof\"; } }\n"
-         "class Box<T> { public T v; public constructor(T v) -> Box<T> { this.v = v; return this; } public function get() -> T { return this.v; }\n"
-         "  public virtual function put(T x) -> void { this.v = x; echo(\"Box.put\"); } public function self() -> Box<T> { return this; } }\n"
-         "class DogBox extends Box<Dog> { public constructor(Dog d) -> DogBox { super(d); return this; } public function bark() -> string { return v.say() + this.get().say(); }\n"
-         "  public override function put(Dog x) -> void { echo(\"DogBox.put\"); } }\n"
-         "class LBox<T> extends Box<T> { public string label; public constructor(string l, T v) -> LBox<T> { super(v); this.label = l; return this; } }\n"
-         "function main() -> void { DogBox b = new DogBox(new Dog()); Dog d = b.get(); echo(d.say()); echo(b.bark()); Box<Dog> up = b; up.put(new Dog()); echo(up.self().get().say());\n"
-         "  Box<int> li = new LBox<int>(\"n\", 7); echo(li.get() + 1); Object o = new Box<int>(1); echo(o == null); }",
-         "woof\nwoofwoof\nDogBox.put\nwoof\n8\nfalse\n"),
         ("a variable keeps its declared class through null and reassignment",
          AB + O + "function main() -> void { O o = new O(); A x = new B(); echo(o.f(x)); x = null; echo(o.f(x)); x = new B(); echo(o.f(x)); }", "f(A)\nf(A)\nf(A)\n"),
         ("a field keeps its declared class through null and reassignment",
